@@ -689,14 +689,22 @@ func c16Outage(c *Ctx, idx int) {
 			h.Stop()
 		}
 		before := len(bed.Policy.Calls.Snapshot())
+		// every reconnect-policy clone the proxy holds (one per pooled connection and one for the control connection) has
+		// asked for a delay since: the control connection, whichever clone is its, has noticed the loss and is reconnecting
 		failedReconnect := waitFor(func() bool {
-			n := 0
-			for _, cl := range bed.Policy.Calls.Snapshot()[before:] {
-				if cl.Kind == "delay" {
-					n++
+			calls := bed.Policy.Calls.Snapshot()
+			clones := map[int64]bool{}
+			for _, cl := range calls {
+				if cl.Kind == "clone" {
+					clones[cl.ID] = true
 				}
 			}
-			return n >= 4 // at least one reconnect attempt of the control connection was made and failed since
+			for _, cl := range calls[before:] {
+				if cl.Kind == "delay" {
+					delete(clones, cl.ID)
+				}
+			}
+			return len(clones) == 0
 		}, 10*time.Second)
 		if !failedReconnect {
 			r.Inconc("c16 outage: no reconnect attempt recorded while all hosts are down")
